@@ -702,6 +702,14 @@ Definition wf_info (X : ext) (fi : info) : bool :=
   wf_path (i_path fi) && wf_time (i_mod fi) && Z.leb (-9223372036854775808) (i_size fi) && Z.ltb (i_size fi) 9223372036854775808 &&
   (i_dir fi || String.eqb (x_text X (i_mime fi)) (i_mime fi)).   (* text XML can carry *)
 
+(** a value an HTTP header field can carry (net/http refuses control bytes other
+    than tab in header values): the content type of a GET answer *)
+Fixpoint header_safe (s : string) : bool :=
+  match s with
+  | EmptyString => true
+  | String c r => let k := N_of_ascii c in (N.leb 32 k || N.eqb k 9) && negb (N.eqb k 127) && header_safe r
+  end.
+
 Definition wf_code (e : fserr) : bool :=
   match e with EHttp c => N.leb 400 c && N.leb c 599 | _ => true end.
 
@@ -774,7 +782,7 @@ Definition spec_ok (X : ext) (fs : filesystem) (ep : string) (o : op) (calls : l
     | FOk fi =>
       if i_dir fi then out_is_err out
       else match fs_open fs p with
-           | FOk b => if Z.eqb (i_size fi) (Z.of_N (strlen b)) then outcome_eqb out (OBytes b) else true
+           | FOk b => if Z.eqb (i_size fi) (Z.of_N (strlen b)) && header_safe (i_mime fi) then outcome_eqb out (OBytes b) else true
            | FErr e => if wf_code e then out_is_err out else true
            end
     | FErr e => if wf_code e then out_is_err out else true
@@ -1013,3 +1021,14 @@ Definition stored_ok (o : op) (stored : option string) : bool :=
 (** the reading of a scripted ("foreign") answer agrees with what the client returned *)
 Definition foreign_agrees (X : ext) (list_op : bool) (resp : hresp) (out : outcome) : bool :=
   outcome_eqb (if list_op then read_list X resp else read_stat X resp) out.
+
+(** an answer that is no multistatus document (any status, any body): what each call
+    makes of it *)
+Definition read_plain (X : ext) (o : op) (status : N) (body : string) : outcome :=
+  let resp := {| h_status := status; h_body := body; h_ms := [] |} in
+  match o with
+  | OpStat _ => read_stat X resp
+  | OpReadDir _ _ => read_list X resp
+  | OpOpen _ => out_of (fun r => OBytes (h_body r)) (client_do resp)
+  | _ => out_of (fun _ => ODone) (client_do resp)
+  end.
